@@ -1,13 +1,20 @@
 (* one program per line:  budget TAB indexed(0|1) TAB rules-hex TAB names(hex, space separated) TAB nodes(; separated)
    node = L:idx | C:idx:hexexpr | I:hexsrc | D:width-or-minus:hex,hex,... | S:hex | A:hex | @:hex
-   answer: OK TAB bits TAB iterations TAB name=hexvalue;... | ERR *)
+   optional 6th field selects the function:  (none) = assemble;  `denote` = Spec.Denote.denote;
+   `cert` TAB sized-symbols(name=hex:size|-;...) TAB bits = Spec.Certificate.cert_check on a claimed result
+   answer: OK TAB bits TAB iterations TAB name=hexvalue;... | ERR | UNSUPPORTED | CERT-OK | CERT-FAIL *)
+let z_of_bits (s : string) : z =
+  let p = ref None in
+  String.iter (fun c -> let b = (c = '1') in
+    p := (match !p with None -> if b then Some XH else None | Some q -> Some (if b then XI q else XO q))) s;
+  match !p with None -> Z0 | Some q -> Zpos q
 let out_bits (v : z) (len : int) =
   let bits = match v with Z0 -> [] | Zpos p -> pos_bits p [] | Zneg _ -> [] in
   let bits = List.init (max 0 (len - List.length bits)) (fun _ -> 0) @ bits in
   String.concat "" (List.map string_of_int bits)
 let () = iter_lines (fun line ->
   match String.split_on_char '\t' line with
-  | [budget; indexed; rules; names; nodes] ->
+  | budget :: indexed :: rules :: names :: nodes :: mode ->
     let bad = ref false in
     let pe h = match parse_full (text_of_hex h) with Some e -> e | None -> (bad := true; ENum (N0, None)) in
     let names_l = if names = "" then [] else String.split_on_char ' ' names in
@@ -29,9 +36,29 @@ let () = iter_lines (fun line ->
      | None -> print_endline "ERR"
      | Some d ->
        if !bad then print_endline "ERR" else
-       match assemble (indexed = "1") d (List.map text_of_hex names_l) ns (nat_of_int (int_of_string budget)) with
-       | None -> print_endline "ERR"
-       | Some (((v, len), syms), it) ->
-         let sy = String.concat ";" (List.concat (List.map2 (fun n v -> match v with VInt b -> [unhex n ^ "=" ^ hex_of_z b.bv] | _ -> []) names_l syms)) in
-         Printf.printf "OK\t%s\t%d\t%s\n" (out_bits v (int_of_z len)) (int_of_nat it) sy)
+       let names_t = List.map text_of_hex names_l in
+       let show_syms syms = String.concat ";" (List.concat (List.map2 (fun n v -> match v with VInt b -> [unhex n ^ "=" ^ hex_of_z b.bv] | _ -> []) names_l syms)) in
+       match mode with
+       | [] ->
+         (match assemble (indexed = "1") d names_t ns (nat_of_int (int_of_string budget)) with
+          | None -> print_endline "ERR"
+          | Some (((v, len), syms), it) ->
+            Printf.printf "OK\t%s\t%d\t%s\n" (out_bits v (int_of_z len)) (int_of_nat it) (show_syms syms))
+       | ["denote"] ->
+         (match denote (indexed = "1") d names_t ns with
+          | DOk ((v, len), syms) -> Printf.printf "OK\t%s\t0\t%s\n" (out_bits v (int_of_z len)) (show_syms syms)
+          | DReject -> print_endline "ERR"
+          | DUnsupported -> print_endline "UNSUPPORTED")
+       | ["cert"; sized; bits] ->
+         let tbl = Hashtbl.create 16 in
+         List.iter (fun kv -> if kv <> "" then
+            match String.split_on_char '=' kv with
+            | [n; vs] -> (match String.split_on_char ':' vs with
+                          | [v; sz] -> Hashtbl.replace tbl n (VInt { bv = z_of_hex v; bsz = (if sz = "-" then None else Some (n_of_int (int_of_string sz))) })
+                          | _ -> ())
+            | _ -> ()) (String.split_on_char ';' sized);
+         let syms = List.map (fun n -> match Hashtbl.find_opt tbl (unhex n) with Some v -> v | None -> VUnknown) names_l in
+         let out = (z_of_bits bits, z_of_int (String.length bits)) in
+         print_endline (if cert_check (indexed = "1") names_t d ns syms out then "CERT-OK" else "CERT-FAIL")
+       | _ -> print_endline "?")
   | _ -> print_endline "?")
